@@ -65,7 +65,13 @@ pub fn scan(out: &mut Out, hay: &[u8], needles: &[(String, Vec<u8>)], where_: &s
 pub fn run(ctx: &Ctx, out: &mut Out, prop: &str) {
     let c20 = prop == "C20";
     let mut rng = ctx.rng(prop);
-    let level = if c20 { log::LevelFilter::Trace } else { LEVELS[(ctx.shard % 6) as usize] };
+    let level = if c20 {
+        log::LevelFilter::Trace
+    } else if ctx.mode == "asan" {
+        [log::LevelFilter::Debug, log::LevelFilter::Trace][(ctx.shard % 2) as usize]
+    } else {
+        LEVELS[(ctx.shard % 6) as usize]
+    };
     install_logger(level, c20);
     if let Some(r) = &ctx.replay {
         let lv = r["log_level"].as_str().and_then(|s| s.parse::<log::LevelFilter>().ok()).unwrap_or(log::LevelFilter::Trace);
@@ -175,8 +181,10 @@ pub fn run(ctx: &Ctx, out: &mut Out, prop: &str) {
         out.floor("sequences", 300);
         out.floor("sentinels_answered_correctly", 200);
         out.floor("log_records_emitted_debug", 1_000);
-        for l in LEVELS {
-            out.floor(&format!("shards_at_level_{}", l), 1);
+        if ctx.mode != "asan" {
+            for l in LEVELS {
+                out.floor(&format!("shards_at_level_{}", l), 1);
+            }
         }
     }
 }
